@@ -3,6 +3,7 @@ import SdJwt.Lemmas.IssuerL
 import SdJwt.Lemmas.CodecL
 import SdJwt.Lemmas.SdOrderInv
 import SdJwt.Props.C01
+import SdJwt.Lemmas.Shuffle
 /-!
 # C13 — salts, digests and decoys give no handle for linking or counting claims  (partial)
 
@@ -182,3 +183,32 @@ example : (MJ.obj (.marked "a" "d1" (.leaf (.num 1 0)) (.marked "b" "d2" (.leaf 
   refine ⟨_, _, rfl, ⟨_, rfl, _, rfl, rfl⟩, ?_⟩
   show List.Perm ["d1", "d2", "decoy"] ["decoy", "d2", "d1"]
   decide
+
+
+/-- **the issuer's `shuffle_digests` on the claims it signs changes nothing a recipient computes.**
+`shuffleJ σ` is `shuffle_digests` with the random permutation as a parameter (`Lemmas/Shuffle.lean`): every
+`_sd` array replaced by `σ` of it, every member value and array element visited. For every conformant issued
+tree `T` and every `σ` that returns a permutation of its argument, the shuffled payload is the payload of a tree
+`T'` that differs from `T` only in the order of the visible digest lists (`MJ.shuffle_payload`), and so
+(`C13_visible_order_irrelevant`) the holder / verifier, given the shuffled payload and the token's
+disclosures in any order, accept and return exactly the original claims. The drawn order is irrelevant to
+every recipient — which is what leaves the issuer free to draw it uniformly at random. -/
+theorem C13_shuffle_changes_nothing (env : Env) (σ : List J → List J) (hσ : ∀ l, (σ l).Perm l)
+    (T : MJ) (strs : List String) (inv : TreeInv T)
+    (hdec : ∀ s ∈ strs, ∃ d, fromBase64 env s = .ok d)
+    (hnd : (strs.map env.hash).Nodup)
+    (hacc : ∀ s ∈ strs, ∀ d, fromBase64 env s = .ok d →
+      DOk T d ∧ ∃ x, (d.digest, x) ∈ T.hiddenE ∧ d.value = x.payload)
+    (hall : ∀ g ∈ T.allMarks, ∃ s ∈ strs, env.hash s = g) :
+    ∃ c ps, restoreAll env (shuffleJ σ T.payload) strs = .ok (c, ps) ∧ removeAll c = T.plain := by
+  obtain ⟨T', hperm, hpay⟩ := MJ.shuffle_payload σ hσ T inv.wf
+  obtain ⟨_, _, _, _, c, ps, h1, h2⟩ := C13_visible_order_irrelevant env T T' strs hperm inv hdec hnd hacc hall
+  exact ⟨c, ps, by rw [hpay]; exact h1, h2⟩
+
+/-- `shuffle_digests` reaches a digest list below an object that has no `_sd` of its own and inside arrays
+(the reversal stands for any permutation) -/
+example : shuffleJ List.reverse (.obj [("a", .obj [("_sd", .arr [.str "x", .str "y"])]),
+      ("l", .arr [.obj [("_sd", .arr [.str "p", .str "q", .str "r"])]])]) =
+    .obj [("a", .obj [("_sd", .arr [.str "y", .str "x"])]),
+      ("l", .arr [.obj [("_sd", .arr [.str "r", .str "q", .str "p"])]])] := by
+  simp [shuffleJ, shuffleMems, shuffleElems]
